@@ -54,6 +54,12 @@ OBLIGATIONS = [
                "thorough": [_c("s%d" % i, s0=[i]) for i in range(N)]},
         desc="unpack -> modify at most one entry -> DirectoryNode._pack_contents -> unpack (AuxValueDict cache path): unmodified directory re-packs to identical bytes, "
              "untouched entries keep their serialisation, result equals the updated map"),
+    chx("pack_from_listing", "C19_h", "h_pack_from_listing", timeout=T,
+        cases={"quick": [_c("a", s0=[2, 6, 12, 0], s1=[0, 4, 13]), _c("b", s0=[0, 1, 10, 14], s1=[2, 11, 1])],
+               "thorough": [_c("s%d" % i, s0=[i]) for i in range(N)]},
+        desc="pack_children applied to the AuxValueDict of a listing of another directory (aux values = that directory's serialised entries), also with stale aux values: "
+             "packed for a new mutable directory with another writekey or for an immutable directory, then unpacked: names, write caps (recovered with the NEW key), read caps and "
+             "metadata equal the dict's values"),
     chx("real_nodes", "C19_h", "h_real_nodes", timeout=T,
         cases={"quick": [_c("g%d" % i, sel=list(range(i, N, 4))) for i in range(4)],
                "thorough": [_c("s%d" % i, sel=[i]) for i in range(N)]},
